@@ -33,7 +33,9 @@ def pylen(eng, st, o: PyObj, mutable: bool):
     """len(o) as seen now.  Fresh or spec-owned containers are stable, others are indexed by the Python-call epoch."""
     if not mutable or o.fresh or getattr(o, 'stable', False):
         return M.py_len(o.ref)
-    return list_len_at(o.ref, z3.IntVal(st.ghost['epoch']))
+    ln = list_len_at(o.ref, z3.IntVal(st.ghost['epoch']))
+    st.pc.append(ln >= 0)
+    return ln
 
 
 # ------------------------------------------------------------------------------------------------
@@ -47,6 +49,11 @@ def call(eng, n, st):
         if isinstance(v, Lam):
             return call_lambda(eng, v, args_n, st)
     name = callee_n.name or ''
+    hook = getattr(eng.cur_contract, 'call_hook', None)
+    if hook is not None:
+        r = hook(eng, st, name, args_n, n)
+        if r is not None:
+            return r
     if callee_n.k in ('CXXDependentScopeMemberExpr', 'UnresolvedMemberExpr') or \
             (callee_n.k == 'MemberExpr' and callee_n.c):
         # member call whose overload is unresolved in a template pattern
@@ -188,7 +195,8 @@ def call_named(eng, st, name, args, n, callee_n=None):
             targs = template_args(eng, callee_n, name)
             saved = dict(eng.template_env)
             for pn, tv in zip(params, targs):
-                eng.template_env[pn] = tv
+                if tv is not None:
+                    eng.template_env[pn] = tv
             try:
                 return call_repo(eng, st, q, None, A, n)
             finally:
@@ -200,11 +208,11 @@ def call_named(eng, st, name, args, n, callee_n=None):
 def template_args(eng, callee_n, name):
     """Template arguments of a call: explicit ones recorded by clang for the referenced specialisation, otherwise
     (dependent call inside a pattern) the enclosing function's own symbolic/concrete template parameters."""
-    if callee_n is not None and callee_n.get('ref'):
+    if callee_n is not None and (callee_n.get('ref') or callee_n.get('refm')):
         tu = getattr(eng, 'cur_tu', None)
-        for key in ((tu, callee_n['ref']),):
+        for key in ((tu, callee_n.get('ref') or callee_n.get('refm')),):
             if key in eng.prog.spec_targs:
-                return [z3.BoolVal(bool(v)) for v in eng.prog.spec_targs[key]]
+                return [z3.BoolVal(bool(v)) if v is not None else None for v in eng.prog.spec_targs[key]]
     env = eng.template_env
     if 'NoneIsLeaf' in env:
         return [env['NoneIsLeaf']]
@@ -516,10 +524,26 @@ def py_model(eng, st, name, A, n):
         if hook:
             hook(eng, st, A, n)
             return [(st, None)]
+    if name == 'DictKeys':
+        d = P(0)
+        # PyDict_Keys for exact dicts; list(od) for subclasses (OrderedDict): iteration may run key __hash__/__eq__
+        eng.may_call_python(st, 'listing the keys of a dict (subclass iteration)', line)
+        s_exc = st.clone()
+        eng.throw(s_exc, 'pybind11::error_already_set', line, 'from iterating the dict')
+        r = fresh('dict_keys', Ref)
+        st.pc.append(z3.And(r != NULL, M.py_is_list(r)))
+        return [(st, PyObj(r, fresh=True))]
+    if name == 'PyList_Reverse':
+        o = P(0)
+        eng.oblige(st, 'IV', 'F1:PyList_Reverse:target-is-fresh', z3.BoolVal(bool(o.fresh)), line)
+        return [(st, z3.IntVal(0))]
     if name == 'TotalOrderSort':
         o = P(0)
         # mutating primitive (list.sort in place): class IV - only engine-fresh lists may be sorted (C14 F1)
         eng.oblige(st, 'IV', 'F1:TotalOrderSort:target-is-fresh', z3.BoolVal(bool(o.fresh)), line)
+        hook = getattr(eng.cur_contract, 'on_sort', None)
+        if hook:
+            hook(eng, st, o, n)
         eng.may_call_python(st, 'key __lt__ (sort)', line)
         s_exc = st.clone()
         eng.throw(s_exc, 'pybind11::error_already_set', line, 'from key __lt__')
@@ -629,6 +653,17 @@ def method(eng, st, base, name, A, n, callee=None):
             q = resolve(eng, name, n, owner_hint='PyTreeSpec::')
             if q is None:
                 raise Unsupported(f'PyTreeSpec::{name}')
+            params = eng.prog.template_params.get(q)
+            if params and callee is not None:
+                targs = template_args(eng, callee, name)
+                saved = dict(eng.template_env)
+                for pn, tv in zip(params, targs):
+                    if tv is not None:
+                        eng.template_env[pn] = tv
+                try:
+                    return call_repo(eng, st, q, base, A, n)
+                finally:
+                    eng.template_env = saved
             return call_repo(eng, st, q, base, A, n)
     if isinstance(base, OptNode):
         if name in ('operator bool', 'has_value'):
@@ -742,7 +777,9 @@ def vector_method(eng, st, base: Ptr, v, name, A, n):
             st.heap[oid] = replace(v, len=v.len + 1, arr=z3.Store(v.arr, v.len, val))
             return [(st, ElemRef(oid, v.len))]
         if isinstance(v, PairVec):
-            a, b = as_int(eng.load(st, A[0])), as_int(eng.load(st, A[1]))
+            x, y = eng.load(st, A[0]), eng.load(st, A[1])
+            a = refof(x) if v.a.sort().range() == Ref else as_int(x)
+            b = refof(y) if v.b.sort().range() == Ref else as_int(y)
             st.heap[oid] = PairVec(v.len + 1, z3.Store(v.a, v.len, a), z3.Store(v.b, v.len, b))
             return [(st, ElemRef(oid, v.len))]
         if isinstance(v, PtrVec):
@@ -1041,7 +1078,11 @@ def construct(eng, n, st):
     if tc.startswith('other:std::tuple') or tc.startswith('other:std::pair'):
         outs = []
         for s, vals in eng.ev_seq(args_n, st):
-            outs.append((s, Tup(tuple(eng.load(s, v) if isinstance(v, ElemRef) else v for v in vals))))
+            vals = [eng.load(s, v) if isinstance(v, ElemRef) else v for v in vals]
+            if len(vals) == 1 and isinstance(vals[0], Tup):
+                outs.append((s, vals[0]))          # copy construction of a pair
+            else:
+                outs.append((s, Tup(tuple(vals))))
         return outs
     if tc in ('int', 'bool', 'kind') and len(args_n) == 1:
         return eng.ev(args_n[0], st)
